@@ -187,8 +187,19 @@ func security() gocbcore.SecurityConfig {
 	}
 }
 
-// NewAgent bootstraps a real gocbcore KV agent against the cluster.
-func (c *Cluster) NewAgent() (*gocbcore.Agent, error) {
+// NewAgent bootstraps a real gocbcore KV agent against the cluster. Under heavy machine load gocbcore's
+// bootstrap occasionally reports an error of its (unused) HTTP config poller; the bootstrap is retried.
+func (c *Cluster) NewAgent() (a *gocbcore.Agent, err error) {
+	for i := 0; i < 6; i++ {
+		if a, err = c.newAgent(); err == nil {
+			return a, nil
+		}
+		time.Sleep(time.Duration(20*(i+1)) * time.Millisecond)
+	}
+	return nil, err
+}
+
+func (c *Cluster) newAgent() (*gocbcore.Agent, error) {
 	agent, err := gocbcore.CreateAgent(&gocbcore.AgentConfig{
 		BucketName: "b", SeedConfig: gocbcore.SeedConfig{MemdAddrs: c.Addrs()}, SecurityConfig: security(),
 		IoConfig:           gocbcore.IoConfig{UseCollections: true},
@@ -205,13 +216,24 @@ func (c *Cluster) NewAgent() (*gocbcore.Agent, error) {
 		return nil, err
 	}
 	if err := <-ch; err != nil {
+		_ = agent.Close()
 		return nil, err
 	}
 	return agent, nil
 }
 
-// NewDcpAgent bootstraps a real gocbcore DCP agent against the cluster.
-func (c *Cluster) NewDcpAgent(name string) (*gocbcore.DCPAgent, error) {
+// NewDcpAgent bootstraps a real gocbcore DCP agent against the cluster (retried like NewAgent).
+func (c *Cluster) NewDcpAgent(name string) (a *gocbcore.DCPAgent, err error) {
+	for i := 0; i < 6; i++ {
+		if a, err = c.newDcpAgent(name); err == nil {
+			return a, nil
+		}
+		time.Sleep(time.Duration(20*(i+1)) * time.Millisecond)
+	}
+	return nil, err
+}
+
+func (c *Cluster) newDcpAgent(name string) (*gocbcore.DCPAgent, error) {
 	dcp, err := gocbcore.CreateDcpAgent(&gocbcore.DCPAgentConfig{
 		BucketName: "b", SeedConfig: gocbcore.SeedConfig{MemdAddrs: c.Addrs()}, SecurityConfig: security(),
 		IoConfig:           gocbcore.IoConfig{UseCollections: true},
@@ -228,6 +250,7 @@ func (c *Cluster) NewDcpAgent(name string) (*gocbcore.DCPAgent, error) {
 		return nil, err
 	}
 	if err := <-ch; err != nil {
+		_ = dcp.Close()
 		return nil, err
 	}
 	return dcp, nil
